@@ -1581,6 +1581,14 @@ func (sc *serverConn) processData(f *DataFrame) error {
 		// can discard frames for streams initiated by the
 		// receiver with identifiers higher than the identified
 		// last stream.
+		//
+		// "[...] DATA frames MUST be counted toward the connection
+		// flow-control window": while the connection is shut down
+		// gracefully the remaining streams still need that window.
+		if sc.goAwayCode == ErrCodeNo && f.Length > 0 && sc.inflow.available() >= int32(f.Length) {
+			sc.inflow.take(int32(f.Length))
+			sc.sendWindowUpdate(nil, int(f.Length))
+		}
 		return nil
 	}
 
